@@ -246,6 +246,7 @@ def run(ctx):
     ctx.guard("R09.3", "raw-discards", raw)
     ctx.guard("R09.3", "ignore_lf", lambda: tr.ignore_lf_rule(ctx, "R09.3", "html"))
     # characters the char-ref code may push back must not have been counted: they are read with peek + discard_char
+    ctx.guard("R09.3", "wrapper-gate", lambda: tr.wrapper_fast_path_gate(ctx, "R09.3", "html"))
     ctx.guard("R09.3", "pushback", lambda: tr.pushback_taint(ctx, "R09.3", "html"))
     ctx.guard("R09.4", "sink", lambda: r09_4(ctx))
     ctx.guard("R09.3", "raw-path-gate", lambda: ctx.floor("R09.3", "raw-path-sites", tr.raw_path_gate(ctx, "R09.3", "html"), 1))
